@@ -42,6 +42,8 @@ Failed(r) ==
             /\ Effect(V, ApplyD(D, e)) = Effect(U, e)
       THEN {} ELSE {"deformed_code_sees_D_e_as_original_sees_e"})
 \cup (IF ND = D /\ ND2 = D THEN {} ELSE {"noise_relabelled_by_same_D"})
+\cup (IF r.noise_default = r.noise_default_on_deformed THEN {}
+      ELSE {"noise_model_does_not_depend_on_earlier_deformations_of_the_object"})
 \cup (IF \A j \in DOMAIN r.ep_ok : r.ep_ok[j] THEN {} ELSE {"deformed_noise_gives_e_the_probability_of_D_e"})
 \cup (IF r.deformed_flag /\ r.deformed_name = r.name THEN {} ELSE {"deformation_recorded_on_object"})
 
